@@ -110,7 +110,20 @@ def run_fabtime(ctx):
     rng = ctx.rng
     items, reqs = [], []
     for i in range(ctx.n(150, 3000)):
-        if rng.random() < 0.5:
+        if i == 3:
+            # one very long pass (more than 65536 stored points) with long moves landing exactly on rows 65536 and 65537
+            nlong = 65536 + 60
+            rows = [[gcommon.f32(0.001 * j), 0.0, 0.0, gcommon.f32(5.0), 1.0] for j in range(nlong)]
+            rows[0][4] = 0.0
+            for j in range(65536, nlong):
+                rows[j][0] = gcommon.f32(rows[j][0] + 40.0)
+            rows[65537][1] = gcommon.f32(25.0)
+            for j in range(65538, nlong):
+                rows[j][1] = gcommon.f32(25.0)
+            rows.append(rows[-1][:3] + [gcommon.f32(5.0), 0.0])
+            rows.append(rows[0][:3] + [gcommon.f32(5.0), 0.0])
+            kind = 'long-pass'
+        elif rng.random() < 0.5:
             kind, rows = gcommon.builder_matrix(rng)
             if rows[0][:3] != rows[-1][:3]:
                 continue
